@@ -58,6 +58,7 @@ type NyctAlertExp struct {
 // ExpectNyctAlerts is the reference semantics of the NYCT alerts extension for the alert entities of m.
 func ExpectNyctAlerts(m *Msg, o NyctAlertsOpts, loc *time.Location) (out []NyctAlertExp, trips []NTripID) {
 	groups := map[string]int{}
+	seenStop := map[[2]string]bool{}
 	for ei := range m.Entities {
 		e := &m.Entities[ei]
 		if e.AL == nil {
@@ -87,13 +88,8 @@ func ExpectNyctAlerts(m *Msg, o NyctAlertsOpts, loc *time.Location) (out []NyctA
 			}
 			g := &out[gi]
 			g.MemberIDs = append(g.MemberIDs, e.ID)
-			seen := false
-			for _, s := range g.Stops {
-				if s == stop {
-					seen = true
-				}
-			}
-			if !seen {
+			if !seenStop[[2]string{key, stop}] {
+				seenStop[[2]string{key, stop}] = true
 				g.Stops = append(g.Stops, stop)
 			}
 			continue
